@@ -73,6 +73,9 @@ pub enum Op {
     /// an ingestion that is started, written to and then DROPPED without `finish()` (its table / blob files are leftovers
     /// that the next recovery has to remove; nothing becomes visible)
     AbandonIngest(Vec<usize>),
+    /// `n` sequence numbers are drawn from the shared counter and never published (writers in flight): the allocating
+    /// counter runs ahead of the visible one for the following operations
+    Lag(u8),
     SnapOpen,
     SnapRelease(usize),
     Reopen,
@@ -123,6 +126,7 @@ impl Op {
             Op::Fifo(l, t) => format!("fifo {l} {t}"),
             Op::DropRange(a, b) => format!("drop_range {} {}", bd_s(a), bd_s(b)),
             Op::Clear => "clear".into(),
+            Op::Lag(n) => format!("lag {n}"),
             Op::AbandonIngest(v) => format!("abandon_ingest {}", v.iter().map(|k| k.to_string()).collect::<Vec<_>>().join(",")),
             Op::Ingest(v) => format!("ingest {}", v.iter().map(|(k, t)| format!("{k}:{}", u8::from(*t))).collect::<Vec<_>>().join(",")),
             Op::SnapOpen => "snap_open".into(),
@@ -153,6 +157,7 @@ impl Op {
             "fifo" => Op::Fifo(t[1].parse().ok()?, t[2].parse().ok()?),
             "drop_range" => Op::DropRange(bd_p(t[1]), bd_p(t[2])),
             "clear" => Op::Clear,
+            "lag" => Op::Lag(t[1].parse().ok()?),
             "abandon_ingest" => Op::AbandonIngest(t.get(1).copied().unwrap_or("").split(',').filter_map(|x| x.parse().ok()).collect()),
             "ingest" => Op::Ingest(pairs(t.get(1).copied().unwrap_or("")).into_iter().map(|(k, b)| (k, b == 1)).collect()),
             "snap_open" => Op::SnapOpen,
@@ -380,6 +385,8 @@ pub fn gen_case(rng: &mut Rng, profile: Profile, blob: bool, max_ops: u64) -> Ca
                     if rng.chance(1, 5) { Op::AbandonIngest(ks.into_iter().collect()) } else { Op::Ingest(ks.into_iter().map(|k| (k, rng.chance(1, 4))).collect()) }
                 } else if pick(w_drop) {
                     Op::DropRange(gen_bd(rng, nkeys), gen_bd(rng, nkeys))
+                } else if pick(12) {
+                    Op::Lag(1 + rng.below(3) as u8)
                 } else if pick(w_clear) {
                     Op::Clear
                 } else if pick(w_reopen) {
@@ -1262,6 +1269,13 @@ fn run_case_inner(case: &Case, runner: &mut Runner) -> Outcome {
                 }
                 model_res = runner.validate(&c, &format!("clear mem={next_mem}"), &tag);
                 bump(&mut out, "op.clear");
+            }
+            Op::Lag(n) => {
+                for _ in 0..*n {
+                    c.seqno.next();
+                }
+                model_res = runner.validate(&c, &format!("bumpctr n={n}"), &tag);
+                bump(&mut out, "op.lag");
             }
             Op::AbandonIngest(kis) => {
                 let ks: BTreeSet<K> = kis.iter().map(|ki| c.keys[*ki % nk].clone()).filter(|k| !c.weak_state.contains_key(k) && !c.once_keys.contains(k)).collect();
